@@ -3,6 +3,7 @@
    regenerated from the current source on every run. *)
 Require Import Base Constants Panic AnchorTypes AnchorSem Gate AccountsTable HandlerFacts Spec
                AnchorSemLemmas AuthLemmas GateLemmas.
+Require Import ConfigGen Fixed Curve Config Emode ConfigPaths ConfigLemmas KilledLemmas.
 Local Open Scope string_scope.
 Local Open Scope Z_scope.
 
@@ -101,6 +102,16 @@ Theorem C14_reduce_only_valuation :
   end.
 Proof. exact valuation_rule_only_reduce_only_initial. Qed.
 
+(* (6) "permanently": whatever sequence of configuration requests the admin sends (configure, interest-only,
+   limits-only, e-mode, clone, staked propagation, curve migration; accepted or refused), a bank that is in the
+   killed state stays there, and in that state validate_bank_state refuses every instruction kind *)
+Theorem C14_killed_permanently :
+  forall g rs b k,
+  op_of b = OP_KILLED ->
+  opstate_of_Z (op_of (apply_reqs g b rs)) = Some KilledByBankruptcy /\
+  validate_bank_state KilledByBankruptcy k = Err (E E_BankKilledByBankruptcy).
+Proof. exact killed_permanently. Qed.
+
 (* Non-vacuity: a pause that started at 1000 blocks at 2799 and not at 2800; the deposit entry carries the
    pause constraint; the gate of deposit on a reduce-only bank refuses with BankReduceOnly (6017), the gate of
    withdraw lets it through. *)
@@ -126,3 +137,4 @@ Print Assumptions C14_paused_iff_flag_and_not_expired.
 Print Assumptions C14_expired_pause_accepts_again.
 Print Assumptions C14_pause_constraint_after_expiry.
 Print Assumptions C14_reduce_only_valuation.
+Print Assumptions C14_killed_permanently.
